@@ -45,11 +45,12 @@ impl FiniteDomain {
         match self {
             FiniteDomain::Interval(r) => match r.clone().into_iter().find(predicate) {
                 Some(u) => {
-                    let r = *r.start()..=u.saturating_sub(1);
-                    if r.is_empty() {
+                    if u == *r.start() {
+                        // Nothing precedes the first element; `u - 1` would also saturate
+                        // at isize::MIN and wrongly keep that element.
                         None
                     } else {
-                        Some(FiniteDomain::Interval(r))
+                        Some(FiniteDomain::Interval(*r.start()..=u - 1))
                     }
                 }
                 None => Some(self.clone()),
